@@ -91,7 +91,7 @@ fn check_tree(ctx: &Ctx, stats: &Stats, defect: &str, tree: &Node, v: AutosarVer
 fn full_node(name: ElementName, t: ElementType, v: AutosarVersion, ctr: &mut usize) -> Option<Node> {
     // minimal node plus every optional attribute valid in v
     let mut n = minimal_node(name, t, v, ctr)?;
-    for (an, spec, required) in t.attribute_spec_iter() {
+    for (an, spec, required) in crate::common::specgraph::attribute_specs(t).into_iter() {
         if required {
             continue;
         }
@@ -309,7 +309,7 @@ fn edge_cases(ctx: &Ctx, stats: &Stats, r: &Reach, tier: Tier, relabel_targets: 
                     break;
                 }
             }
-            for (an, spec, required) in s.etype.attribute_spec_iter() {
+            for (an, spec, required) in crate::common::specgraph::attribute_specs(s.etype).into_iter() {
                 let Some(aspec) = s.etype.find_attribute_spec(an) else { continue };
                 if required {
                     let mut c = child.clone();
